@@ -254,12 +254,56 @@ def run(ctx):
     ctx.ob("R7.who-may-write", "skip-pure|%s:carquet_column_skip" % CR, P.where(sk.body),
            "skip changes reader state only through carquet_column_read_batch",
            not writes and len(sk.calls("carquet_column_read_batch")) >= 1)
-    # skip counts what read_batch delivered
-    acc = [a for a in sk.body.walk() if a.k == "CompoundAssignOperator" and a.op == "+="]
-    oka = any(src(a.c[1]) in [src(d.c[0]) if False else x for x in _names_assigned_from(sk, "carquet_column_read_batch")] for a in acc)
-    ctx.ob("R9.paired", "skip-count|%s:carquet_column_skip" % CR, P.where(sk.body),
-           "skip reports the number of rows read_batch delivered", oka)
+    # skip counts what read_batch delivered: carquet_column_skip executed with read_batch hooked to a script of
+    # deliveries (full chunks, a short delivery, exhaustion, an error): the result is the sum of what was delivered,
+    # no request exceeds what is still wanted, and nothing is requested after the script ended the column
+    from ..rules import sem as _sem
+    ro = _sem.field_offsets(P, "carquet_column_reader")
+    phys = P.enum("carquet_physical_type")
+    bad = None
+    nsk = 0
+    what_sk = "skip(n) returns the number of rows its read_batch calls delivered and never asks for more than n minus what it already got"
+    try:
+        for want, avail, script in ((2500, 5000, [None, None, None]), (2500, 1500, [None, 476, None]), (10, 5000, [None]),
+                                    (3000, 5000, [None, 100, -1]), (0, 50, []), (700, 0, []), (2048, 2048, [None, None, None])):
+            st = {"left": avail, "calls": [], "got": 0, "i": 0}
 
+            def rb(ev, a, it, st=st, script=script, want=want):
+                req = a[2]
+                if not isinstance(req, int):
+                    raise _sem.Inconclusive("read_batch requested an unknown count")
+                plan = script[st["i"]] if st["i"] < len(script) else None
+                st["i"] += 1
+                if plan is not None and plan < 0:
+                    st["calls"].append((req, 0))
+                    return plan
+                give = min(req, st["left"]) if plan is None else min(plan, req, st["left"])
+                st["calls"].append((req, give))
+                st["left"] -= give
+                st["got"] += give
+                it.heap[("rd", ro["values_remaining"])] = st["left"]
+                return give
+
+            def reset(st=st, avail=avail):
+                st.update({"left": avail, "calls": [], "got": 0, "i": 0})
+            heap0 = {("rd", ro["values_remaining"]): avail, ("rd", ro["type"]): phys["CARQUET_PHYSICAL_INT64"], ("rd", ro["type_length"]): 0}
+            ret, ev, heap = _sem.run(P, sk, [_sem.Ptr("rd", 0, 1), want], heap0=heap0, single=True, max_forks=8, budget=200000,
+                                     on_start=reset, hooks={"carquet_column_read_batch": rb, "malloc": lambda ev, a, it: _sem.Ptr("tmp", 0, 1),
+                                                            "free": lambda ev, a, it: None})
+            nsk += 1
+            if ret != st["got"] and bad is None:
+                bad = "skip(%d) on a column with %d rows left (deliveries %s): returns %r, read_batch delivered %d" % (want, avail, script, ret, st["got"])
+            run = 0
+            for r, g_ in st["calls"]:
+                if (r > want - run or r <= 0) and bad is None:
+                    bad = "skip(%d): a read_batch call asks for %d rows when %d are still wanted" % (want, r, want - run)
+                run += g_
+            if want == 0 and st["calls"] and bad is None:
+                bad = "skip(0) calls read_batch"
+        ctx.ob("R9.paired", "skip-count|%s:carquet_column_skip" % CR, P.where(sk.body), what_sk + " (%d scripted scenarios, abstract execution)" % nsk,
+               bad is None, bad or "")
+    except (_sem.Inconclusive, KeyError) as ex:
+        ctx.inconclusive("R9.paired", "skip-count|%s:carquet_column_skip" % CR, P.where(sk.body), what_sk, "%s: %s" % (type(ex).__name__, ex))
     # ---- (4) null bitmap polarity
     sites = []
     for fn in (bn, P.fn("scalar_build_null_bitmap", "src/simd/dispatch.c"),
